@@ -91,6 +91,17 @@ func accessorChains(v Val) string {
 // WiringRule checks the calls of the given Converter methods (nil = all).
 func WiringRule(w *World, r *Result, rule string, only func(method string) bool) {
 	seen := map[string]bool{}
+	// a handler may call the method in two places (with and without an optional child): the
+	// place without it passes a constant
+	fedSomewhere := map[string]bool{}
+	for _, dc := range DriverCalls(w) {
+		for p := range dc.Args {
+			id := dc.Method + "." + p + "@" + dc.Fn.Name()
+			if want, ok := wiringTable[id]; ok && accessorChains(dc.Args[p]) == want {
+				fedSomewhere[id] = true
+			}
+		}
+	}
 	for _, dc := range DriverCalls(w) {
 		if only != nil && !only(dc.Method) {
 			continue
@@ -130,6 +141,8 @@ func WiringRule(w *World, r *Result, rule string, only func(method string) bool)
 			pos := w.Pos(dc.Call.Pos())
 			if got == want {
 				r.Ok(rule, key, pos, "fed from "+want)
+			} else if got == "" && fedSomewhere[id] && isConstantVal(dc.Args[p]) {
+				r.Ok(rule, key+":constant", pos, "a constant at this call; the handler's other call of the method feeds it from "+want)
 			} else {
 				r.Bad(rule, key, pos, fmt.Sprintf("the Converter parameter %s.%s is fed from [%s] in %s; the node child it stands for is [%s]: operands or flags are crossed, which the types (all strings and bools) cannot show", dc.Method, p, got, dc.Fn.Name(), want))
 			}
@@ -203,6 +216,20 @@ func WiringRule(w *World, r *Result, rule string, only func(method string) bool)
 	if len(missing) > 0 && len(seen) == 0 {
 		r.Bad(rule, "wire:none", "-", "none of the Converter calls of the reference tree was found in the driver: "+strings.Join(missing, ", "))
 	}
+}
+
+// isConstantVal: text fixed by the driver (no part of it comes from the node).
+func isConstantVal(v Val) bool {
+	switch x := v.(type) {
+	case StrV:
+		_, ok := litOnly(x.T)
+		return ok
+	case BoolV:
+		return x.Const != nil
+	case IntV:
+		return x.Const != nil
+	}
+	return false
 }
 
 func init() {
